@@ -18,7 +18,7 @@ type c09 struct{ base }
 
 func init() {
 	core.Register(c09{base{id: "C09", level: "exploration", quickB: 16, thoroughB: 32,
-		rule: "tables of 1-8 columns over {bool,int2,int4,int8,float4,float8,text,varchar,bpchar,name,bytea,uuid,oid,date,timestamp,timestamptz,json,jsonb} (+int4[],text[] in thorough), 1-6 rows of generated values incl. boundary values (min/max ints, +-0, +-Inf, NaN, subnormals, empty string/bytes, 4-byte UTF-8, years 1/9999) with NULLs (untyped nil, typed nil pointer, invalid pgtype value, sql.Null*, nil []byte for bytea) at random positions; fetched by simple Query (text) and by Bind/Execute with result-format vectors of 0, 1 or n codes over {text,binary}; each DataRow field is decoded by the harness's own decoder in the announced format and compared with the value written (floats bit-exact, NaN by class). Non-trivial = a row holding a NULL form other than untyped nil, a boundary value or a binary-format column; distinct = (column types, formats, NULL-form placement).",
+		rule:        "tables of 1-8 columns over {bool,int2,int4,int8,float4,float8,text,varchar,bpchar,name,bytea,uuid,oid,date,timestamp,timestamptz,json,jsonb} (+int4[],text[] in thorough), 1-6 rows of generated values incl. boundary values (min/max ints, +-0, +-Inf, NaN, subnormals, empty string/bytes, 4-byte UTF-8, years 1/9999) with NULLs (untyped nil, typed nil pointer, invalid pgtype value, sql.Null*, nil []byte for bytea) at random positions; fetched by simple Query (text) and by Bind/Execute with result-format vectors of 0, 1 or n codes over {text,binary}; each DataRow field is decoded by the harness's own decoder in the announced format and compared with the value written (floats bit-exact, NaN by class). Non-trivial = a row holding a NULL form other than untyped nil, a boundary value or a binary-format column; distinct = (column types, formats, NULL-form placement).",
 		need:        []string{"rows_compared", "fields_compared", "null_fields", "typed_null_forms", "binary_fields", "empty_nonnull_fields"},
 		assumptions: append([]string{"values are produced as the column's native Go type; a nil []byte is only used as NULL for bytea (for text it is the empty string by pgtype's own convention)"}, commonAssumptions...)}})
 }
@@ -170,6 +170,10 @@ func (ch c09) Run(c *core.Ctx) {
 			cols = append(cols, wire.Column{Name: fmt.Sprintf("c%d", j), Oid: oid.Oid(o), Width: -1})
 		}
 		st := &hs.Stmt{ID: fmt.Sprintf("t%d", i), Cols: cols}
+		if t.Mode == "simple" && i%3 == 0 && len(cols) > 0 {
+			st.Cols, st.Define = nil, cols // announced by the handler through DataWriter.Define
+			c.Count("handler_defined_tables", 1)
+		}
 		for ri, r := range t.Rows {
 			if (i+ri)%4 == 0 {
 				// a row that fails half-way (unencodable value in a random column) or has the wrong
@@ -207,6 +211,14 @@ func (ch c09) Run(c *core.Ctx) {
 				}
 				in = append(in, pg.Bind("other", "", nil, nil, other)...)
 				c.Count("interleaved_second_portal", 1)
+			}
+			if i%4 == 1 {
+				// the unnamed statement is parsed again (another query, other columns) while the portal
+				// bound and described above is still to be executed: its rows must match its description
+				sess.Progs["other-table"] = &hs.Prog{Stmts: []*hs.Stmt{{ID: "other", Cols: wire.Columns{{Name: "o1", Oid: oid.T_int4, Width: 4}, {Name: "o2", Oid: oid.T_int4, Width: 4}},
+					Ops: []hs.Op{{K: "row", Vals: []any{int32(1), int32(2)}}, {K: "complete", Tag: "SELECT 1"}}}}}
+				in = append(in, pg.Parse("", "other-table", nil)...)
+				c.Count("reparse_before_execute", 1)
 			}
 			in = append(in, pg.Execute("", 0)...)
 			in = append(in, pg.Sync()...)
